@@ -381,6 +381,14 @@ def _instr(ctx, a):
             # the tape-operand forms: one unsigned length byte, then the signed divisor (up to 255 bytes)
             forms.append(('DIV_INT', push(ea) + b'\x11' + bytes([len(eb)]) + eb, OPS['DIV_INTS'][1]))
             forms.append(('MOD_INT', push(ea) + b'\x13' + bytes([len(eb)]) + eb, OPS['MOD_INTS'][1]))
+        if b == a or b == -a or b == a + 1:
+            # non-minimal (sign-extended) encodings of either operand denote the same integers
+            ext = lambda e: (b'\xff' if e[0] & 0x80 else b'\x00') + e
+            if len(ea) + 2 <= MAX_ITEM and len(eb) + 2 <= MAX_ITEM:
+                for name, (code, ref_) in OPS.items():
+                    forms.append((name, push(ext(eb)) + push(ea) + code, ref_))
+                    forms.append((name, push(eb) + push(ext(ea)) + code, ref_))
+                    forms.append((name, push(ext(ext(eb))) + push(ext(ea)) + code, ref_))
         if len(enc_ref(a * b)) > MAX_ITEM:
             # only the result has to fit: an oversize intermediate product times zero is zero (both operand orders)
             zero = lambda x, y: [0]
@@ -434,6 +442,52 @@ def _instr(ctx, a):
     ctx.evaluations += len(_BI) * (len(OPS) + 2) - 1
 
 
+BIG_LIMIT = 8192
+
+
+def _instr_big(ctx, k):
+    """embedder raised stack_max_item_size to 8192 bytes: operands of 2^k + d bits well above the default limit (and above
+    the host's 4300-digit int <-> str conversion limit, which is left at its default while the instructions run)"""
+    import sys
+    n = 0
+    old = sys.get_int_max_str_digits()
+    sys.set_int_max_str_digits(4300)
+    try:
+        for sa in (1, -1):
+            for d in (-1, 0, 1):
+                a = sa * ((1 << k) + d)
+                ea = enc_ref(a)
+                for b in (1, -1, 2, 3, -7, (1 << 64) + 1, -(1 << (k // 2)), a):
+                    eb = enc_ref(b)
+                    forms = [(name, push(eb) + push(ea) + code, ref) for name, (code, ref) in OPS.items()]
+                    if len(eb) < 256:
+                        forms.append(('DIV_INT', push(ea) + b'\x11' + bytes([len(eb)]) + eb, OPS['DIV_INTS'][1]))
+                        forms.append(('MOD_INT', push(ea) + b'\x13' + bytes([len(eb)]) + eb, OPS['MOD_INTS'][1]))
+                    for name, script, ref in forms:
+                        n += 1
+                        want = ref(a, b)
+                        ctx.ran()
+                        try:
+                            _, stack, _ = F.run_script(script, stack_max_item_size=BIG_LIMIT)
+                            items, raised = stack.list(), None
+                        except BaseException as e:
+                            raised, items = e, None
+                        ctx.trans()
+                        ctx.outcome('big:' + name + (':raised' if raised is not None else ':ok'))
+                        tag = f'top=sign{sa}*(2^{k}{d:+d}) second bits={b.bit_length()} sign={1 if b > 0 else -1}'
+                        if name.startswith('LESS'):
+                            if raised is not None or items != [b'\xff' if want[0] else b'\x00']:
+                                ctx.violation({'op': name, 'clause': 'comparison result', 'limit': 'raised'}, f'{tag}: {type(raised).__name__}')
+                            continue
+                        fits = len(enc_ref(want[0])) < BIG_LIMIT
+                        if fits and (raised is not None or len(items) != 1 or int.from_bytes(items[0], 'big', signed=True) != want[0]):
+                            ctx.violation({'op': name, 'clause': 'exact result when it fits the item limit', 'limit': 'raised'},
+                                          f'{tag}: {type(raised).__name__ if raised is not None else "wrong value"}')
+    finally:
+        sys.set_int_max_str_digits(old)
+    ctx.evaluations += n - 1
+
+
 def blocks(tier, seed):
     q = tier == 'quick'
     bl = []
@@ -461,6 +515,9 @@ def blocks(tier, seed):
     bi = boundary_ints(8 * MAX_ITEM - 8)
     bl.append(Block('int_instructions', bi if not q else bi[:len(bi)], _instr,
                     'ADD SUB MULT DIV MOD LESS LEQ (and the tape-operand DIV_INT / MOD_INT for divisors <= 255 bytes) on all ordered pairs of boundary ints'))
+    bl.append(Block('int_instructions_raised_item_limit', [8200, 14284, 14285, 14286, 16384, 32768, 60000], _instr_big,
+                    'stack_max_item_size raised to 8192: operands +-(2^k + d), k up to 60000, x 8 second operands x all int instructions; '
+                    'host int<->str digit limit at its default', nshards=7))
     return bl
 
 
